@@ -388,6 +388,31 @@ def same(a, b) -> bool:
 # --------------------------------------------------------------------------------------------
 # the rule
 # --------------------------------------------------------------------------------------------
+def check_clock(ctx, P) -> None:
+    """The cadence is stated at the LDM's one-second clock: `TimestampIts.initialize_with_utc_timestamp_seconds()` without an
+    argument reads the wall clock truncated to whole seconds.  Every TimeService.time() read in it is the argument of int() /
+    floor(): a fractional `now` makes an interval of n seconds elapse late by up to a second against the stamps it is compared
+    with, and lets a 1 ms interval notify several times within one second."""
+    ts = P.cls(f"{LDM}.ldm_classes.TimestampIts")
+    fi = ts.methods.get("initialize_with_utc_timestamp_seconds")
+    if fi is None:
+        raise AnalysisError("C14: TimestampIts.initialize_with_utc_timestamp_seconds vanished")
+    fl = ctx.flows.get(fi)
+    clocks = [c for c in P.calls_in(fi) if (dotted(c.func) or "").endswith("TimeService.time")]
+    if not clocks:
+        raise AnalysisError("C14: TimestampIts.initialize_with_utc_timestamp_seconds no longer reads the wall clock")
+    bare = []
+    for c in clocks:
+        par = fl.parent.get(id(c))
+        ok = isinstance(par, ast.Call) and (dotted(par.func) or "").split(".")[-1] in ("int", "floor", "trunc") and par.args and par.args[0] is c
+        if not ok:
+            bare.append(c.lineno)
+    ctx.ob("C14.bookkeeping", fi.short(), "clock-in-whole-seconds", not bare,
+           "the LDM clock is the wall clock truncated to whole seconds" if not bare else
+           f"the wall clock is used with its fractional part (line {bare[0]}): notification intervals are no longer measured at the LDM's "
+           "one-second resolution (late notifications for intervals >= 1 s, repeated ones within a second for the 1 ms interval)", fi.loc)
+
+
 def run(ctx):
     P = ctx.prog
     ctx.explanation = (
@@ -410,6 +435,7 @@ def run(ctx):
     check_validation(ctx, P, X, sv, if4)
     check_unsubscribe_if(ctx, P, X, sv, if4)
     check_reactive(ctx, P, X)
+    check_clock(ctx, P)
     ctx.floor("C14.notify-guards", 4)
     ctx.floor("C14.notify-data", 5)
     ctx.floor("C14.bookkeeping", 7)
